@@ -430,7 +430,11 @@ func (p *ProofD) revocationAttrIndex() int {
 	params := revocation.Parameters
 	max := new(big.Int).Lsh(big.NewInt(1), params.AttributeSize+params.ChallengeLength+params.ZkStat+1)
 	for idx, i := range p.AResponses {
-		if i.Cmp(max) < 0 {
+		// The secret key (index 0) is never the revocation attribute. Its response is the one the
+		// holder has most influence on (he chooses the secret and, in a proof list, its randomizer):
+		// were it eligible, a nonrevocation proof about a value equal to the holder's secret key
+		// (e.g. another, unrevoked holder's revocation attribute) would be accepted for this credential.
+		if idx != 0 && i.Cmp(max) < 0 {
 			return idx
 		}
 	}
